@@ -1244,6 +1244,22 @@ theorem readOnly_default_regression :
       !firesD false s (.obj []) && firesD true s (.obj []) &&
       !(visD true false s (.obj [(['a'], .int 1)])).isSome && satReqB false s (.obj [])) = true := by decide
 
+/-- regression of repair 197d46a (the schema below `not` is tried on a private copy): the defaults of a schema the
+value must NOT match never reach the value. `{}` against `{type: object, additionalProperties: false,
+not: {required: [b], properties: {a: {default: 1}}}}`: the `not` schema fails (no `b`), so `not` passes; its default
+`a` is not written into the value (before the repair it was, and `a` was then an unsupported property): accepted,
+value unchanged, for both settings of default-setting; and a `not` schema that matches only thanks to its own
+default rejects under default-setting (the candidate is judged completed, like a oneOf/anyOf candidate) -/
+theorem not_defaults_do_not_leak :
+    let pa := RS.mk none false false false 0 none [] [] none none none [] [] [] { dflt := some (.int 1) }
+    let n1 := RS.leaf none false false false 0 none [(['a'], pa)] [['b']] none none
+    let s1 := RS.mk (some .object) false false false 0 none [] [] (some false) none (some n1) [] [] [] {}
+    let n2 := RS.leaf none false false false 0 none [(['a'], pa)] [['a']] none none
+    let s2 := RS.mk (some .object) false false false 0 none [] [] none none (some n2) [] [] [] {}
+    (match visD true false s1 (.obj []) with | some v' => V.beq v' (.obj []) | none => false) = true ∧
+    visit false s1 (.obj []) = true ∧ firesD false s1 (.obj []) = true ∧
+    (visD true false s2 (.obj [])).isSome = false ∧ visit false s2 (.obj []) = true := by decide
+
 /-- a write-only property and a plain property do receive their defaults; the completed value is what the rest of
 the validation sees -/
 example :
